@@ -111,7 +111,11 @@ def check_finalize(db, chk):
     chk.analysed(body)
     c = body.cfg
     cp = one_call(body, "ObjectStore>::copy", "ObjectStore::copy")
-    pie = one_call(body, "ExternalManifestStore::put_if_exists")
+    pies = calls(body, "ExternalManifestStore::put_if_exists")
+    if not pies:
+        raise AnchorMissing("finalize_manifest: no put_if_exists call")
+    pie = pies[0]
+    pie_blocks = [b for b, _ in pies]
     dl = one_call(body, "ObjectStore>::delete", "ObjectStore::delete")
     hd = one_call(body, "ObjectStore>::head", "ObjectStore::head")
     o_from = c.op_origins(cp[1]["args"][1])
@@ -138,14 +142,14 @@ def check_finalize(db, chk):
             r_o = c.reachable_from(list(others), include_start=True, avoid=[tgt])
             nf_ok = c.dominates(tgt, fb) and fb not in r_o
             # other error arms return Err without touching the external store
-            chk.ob(R, "copy-other-errors-propagate", pie[0] not in r_o and dl[0] not in r_o,
+            chk.ob(R, "copy-other-errors-propagate", not any(b in r_o for b in pie_blocks) and dl[0] not in r_o,
                    "copy errors other than NotFound return without flipping the external store", body.loc(cp[1]["ln"]))
     chk.ob(R, "copy-tolerates-only-NotFound", nf_ok, "copied = false is set only on copy's NotFound arm", body.loc(cp[1]["ln"]))
     oks = [i for (i, j, s) in c.aggregates(adt="Result", variant="Ok") if s["lhs"] == [0]]
     # --- assume copied = false
     ef_f = assume_filter(c, copied, False)
     r_f = c.reachable_from([fb], include_start=True, edge_filter=ef_f)
-    chk.ob(R, "!copied=>no-flip", pie[0] not in r_f, "with copied = false the external store is not flipped", body.loc(pie[1]["ln"]))
+    chk.ob(R, "!copied=>no-flip", not any(b in r_f for b in pie_blocks), "with copied = false the external store is not flipped", body.loc(pie[1]["ln"]))
     chk.ob(R, "!copied=>staging-kept", dl[0] not in r_f, "with copied = false the staging object is not deleted", body.loc(dl[1]["ln"]))
     r_f_nohead = c.reachable_from([fb], include_start=True, edge_filter=ef_f, avoid=[hd[0]])
     chk.ob(R, "!copied=>head-before-return", not any(o in r_f_nohead for o in oks) and any(o in r_f for o in oks),
@@ -155,15 +159,25 @@ def check_finalize(db, chk):
     # --- assume copied = true
     ef_t = assume_filter(c, copied, True)
     r_t = c.reachable_from([tb], include_start=True, edge_filter=ef_t)
-    r_t_noput = c.reachable_from([tb], include_start=True, edge_filter=ef_t, avoid=[pie[0]])
-    chk.ob(R, "copied=>flip-on-every-ok-path", pie[0] in r_t and not any(o in r_t_noput for o in oks),
+    r_t_noput = c.reachable_from([tb], include_start=True, edge_filter=ef_t, avoid=pie_blocks)
+    chk.ob(R, "copied=>flip-on-every-ok-path", any(b in r_t for b in pie_blocks) and not any(o in r_t_noput for o in oks),
            "with copied = true every successful return passes put_if_exists", body.loc(pie[1]["ln"]))
-    p_ok, p_err, _ = ok_targets(c, pie[0])
+    p_ok = set()
+    for b in pie_blocks:
+        p_ok |= set(ok_targets(c, b)[0])
     chk.ob(R, "flip<delete", bool(p_ok) and any(c.dominates(x, dl[0]) for x in p_ok), "delete(staging) lies on the success edge of put_if_exists",
            body.loc(dl[1]["ln"]))
-    chk.ob(R, "copy<flip", c.dominates(cp[0], pie[0]), "copy dominates put_if_exists", body.loc(pie[1]["ln"]))
-    o_pp = c.op_origins(pie[1]["args"][3])
-    chk.ob(R, "flip-to-final", origin_has_call(o_pp, "manifest_path"), "put_if_exists points the external store at the final path", body.loc(pie[1]["ln"]))
+    # the store may be pointed at the final path only once the final object is known to exist: every flip lies on the success
+    # edge of the copy (not merely after the copy was *started*: a flip that overlaps the copy can land when the copy fails)
+    # every path to a flip passes a point where the copy's outcome is recorded (copied := true / false); together with
+    # "!copied=>no-flip" this puts every flip after a successful copy
+    r_pre = c.reachable_from([0], include_start=True, avoid=[tb, fb])
+    late = [t["ln"] for b, t in pies if b in r_pre]
+    chk.ob(R, "copy<flip", c.dominates(cp[0], pie[0]) and not late,
+           "every put_if_exists comes after the copy's outcome is known (%d flip site(s); reachable before it: line(s) %s)" % (len(pies), late or "none"),
+           body.loc(pie[1]["ln"]))
+    chk.ob(R, "flip-to-final", all(origin_has_call(c.op_origins(t["args"][3]), "manifest_path") for _, t in pies),
+           "put_if_exists points the external store at the final path", body.loc(pie[1]["ln"]))
     o_dl = c.op_origins(dl[1]["args"][1])
     chk.ob(R, "delete-staging-only", ("upvar", "staging_manifest_path") in o_dl and not origin_has_call(o_dl, "manifest_path"),
            "delete removes the staging object, never the final one", body.loc(dl[1]["ln"]))
